@@ -238,9 +238,10 @@ def run(ctx):
              "samplingSender(gRPCChunkSender) whose delivered messages Trace_Stream.tla validated; scenarios = "
              "TLC scripts (one per Produce transition of Stream.tla, sampled to the tier's cap), seeded random "
              "histories (incl. > 100 consecutive stats-only events, ~1.5 MB and exactly-budget files, one "
-             "scenario group per Stats field) and StreamSearch end-to-end on a directory searcher; non-trivial = "
-             "scenarios in which a result was split into several messages, or an aggregate was forwarded by the "
-             "sampler, or merged into a file event",
+             "scenario group per Stats field) and StreamSearch end-to-end on a directory searcher; non-trivial "
+             "(judged on the producer events) = scenarios in which a result of >= 2 files reaches the budget and "
+             "must be split, or the 100th stats-only event finds counters to forward, or a file event follows "
+             "stats-only events with counters (merge)",
         exhaustive=False,
         extra={"scripts_from_tlc": total_scripts, "scripts_replayed": len(scripts), "pipeline_coverage": cover,
                "stats_fields": names, "conformance_mismatches": len(conform)})
